@@ -48,26 +48,27 @@ theorem stepExact_of_contract (ι : ρ →+* 𝕜) (hι : ∀ x : ρ, (RealLike.
   intro i hi j hj
   rw [rule_tol0 k.dnorm k.dargsort _ h.norm h.sort]
   by_cases hkeep : (((List.range (k.dsvd M).2.1.length).filter fun i => decide ((k.dsvd M).2.1.getD i 0 ≠ 0)).isEmpty
-      && !(k.dsvd M).2.1.isEmpty) = true
+      && !(k.dsvd M).2.1.isEmpty && (k.dsvd M).2.1.all (fun x => decide (x = 0))) = true
   · -- every singular value vanishes: the dummy column contributes `0`, and `M = U · diag(0) · V = 0`
-    rw [Bool.and_eq_true, List.isEmpty_iff, List.filter_eq_nil_iff] at hkeep
+    have hkeep' := hkeep
+    rw [Bool.and_eq_true, Bool.and_eq_true, List.all_eq_true] at hkeep
     have hz : ∀ p < (k.dsvd M).2.1.length, (k.dsvd M).2.1.getD p 0 = 0 := by
       intro p hp
-      have := hkeep.1 p (List.mem_range.2 hp)
-      simpa using this
+      have hm : (k.dsvd M).2.1.getD p 0 ∈ (k.dsvd M).2.1 := by
+        rw [List.getD_eq_getElem?_getD, List.getElem?_eq_getElem hp]
+        exact List.getElem_mem hp
+      simpa using hkeep.2 _ hm
     have hne : 0 < (k.dsvd M).2.1.length := by
       have : (k.dsvd M).2.1 ≠ [] := by
         intro h0
-        have := hkeep.2
+        have := hkeep.1.2
         rw [h0] at this
         simp at this
       exact List.length_pos_iff.2 this
     have hk1 : fvKeep ((List.range (k.dsvd M).2.1.length).filter fun i => decide ((k.dsvd M).2.1.getD i 0 ≠ 0))
         (k.dsvd M).2.1 = [0] := by
       unfold fvKeep
-      rw [if_pos]
-      rw [Bool.and_eq_true, List.isEmpty_iff, List.filter_eq_nil_iff]
-      exact hkeep
+      rw [if_pos hkeep']
     rw [hk1, ← h.product i hi j hj]
     simp only [List.length_cons, List.length_nil, Nat.zero_add, sum_range_one, List.getD_cons_zero]
     rw [hz 0 hne, hι, map_zero, mul_zero, zero_mul]
